@@ -38,6 +38,7 @@ type FnInfo struct {
 	volatile map[int]bool // cell may be written by a closure: never trusted
 	nnMemo   map[nnKey]int
 	phiRet   map[*ssa.BasicBlock]bool // return blocks whose operands include a phi of the same block
+	phiIdx   map[*ssa.Phi]int         // tracked nil-able phis
 	mod      map[stKey]bool           // struct fields (of error type) this function may store to, transitively
 	modDone  bool
 }
@@ -396,7 +397,7 @@ const (
 // return blocks whose operand is a phi of that block).
 type state struct {
 	b int
-	m uint32
+	m uint64 // bits 0..29: error cells known non-nil; bits 32..63: tracked phis (2 bits each: known nil / known non-nil)
 	p int
 }
 
@@ -405,21 +406,146 @@ type edgeKey struct {
 }
 
 // transfer computes the mask at the end of block b for each successor.
-func (fi *FnInfo) transfer(b *ssa.BasicBlock, m uint32) []uint32 {
+func (fi *FnInfo) transfer(b *ssa.BasicBlock, m uint64) []uint64 {
 	m = fi.through(b, m)
-	outs := make([]uint32, len(b.Succs))
+	outs := make([]uint64, len(b.Succs))
 	for i := range outs {
 		outs[i] = m
 	}
 	if iff, ok := blockTerm(b).(*ssa.If); ok && len(outs) == 2 {
 		fi.refine(iff.Cond, true, &outs[0])
 		fi.refine(iff.Cond, false, &outs[1])
+		// prune edges contradicted by what is known about a tracked phi
+		for j := 0; j < 2; j++ {
+			if fi.infeasible(iff.Cond, j == 0, m) {
+				outs[j] = infeasibleMask
+			}
+		}
+	}
+	for j, t := range b.Succs {
+		if outs[j] != infeasibleMask {
+			outs[j] = fi.enter(t, b, outs[j])
+		}
 	}
 	return outs
 }
 
+const infeasibleMask = ^uint64(0)
+
+// trackedPhis: pointer/interface phis with at least one constant-nil edge.
+func (fi *FnInfo) trackPhis() {
+	if fi.phiIdx != nil {
+		return
+	}
+	fi.phiIdx = map[*ssa.Phi]int{}
+	for _, b := range fi.Fn.Blocks {
+		for _, in := range b.Instrs {
+			p, ok := in.(*ssa.Phi)
+			if !ok {
+				break
+			}
+			switch p.Type().Underlying().(type) {
+			case *types.Pointer, *types.Interface, *types.Map, *types.Slice, *types.Signature:
+			default:
+				continue
+			}
+			hasNil := false
+			for _, e := range p.Edges {
+				if isNilConst(e) {
+					hasNil = true
+				}
+			}
+			if hasNil && len(fi.phiIdx) < 16 {
+				fi.phiIdx[p] = len(fi.phiIdx)
+			}
+		}
+	}
+}
+
+// enter updates the knowledge about the tracked phis of block t when it is
+// entered from block from.
+func (fi *FnInfo) enter(t, from *ssa.BasicBlock, m uint64) uint64 {
+	fi.trackPhis()
+	if len(fi.phiIdx) == 0 {
+		return m
+	}
+	pi := -1
+	for i, p := range t.Preds {
+		if p == from {
+			pi = i
+			break
+		}
+	}
+	for _, in := range t.Instrs {
+		p, ok := in.(*ssa.Phi)
+		if !ok {
+			break
+		}
+		idx, tracked := fi.phiIdx[p]
+		if !tracked {
+			continue
+		}
+		sh := uint(32 + 2*idx)
+		m &^= 3 << sh
+		if pi < 0 || pi >= len(p.Edges) {
+			continue
+		}
+		e := p.Edges[pi]
+		if isNilConst(e) {
+			m |= 1 << sh
+		} else if fi.nonNil(e, from) {
+			m |= 2 << sh
+		} else if q, ok := e.(*ssa.Phi); ok {
+			if qi, ok := fi.phiIdx[q]; ok {
+				m |= ((m >> uint(32+2*qi)) & 3) << sh
+			}
+		}
+	}
+	return m
+}
+
+// infeasible: cond == truth contradicts what the mask knows about a tracked phi.
+func (fi *FnInfo) infeasible(cond ssa.Value, truth bool, m uint64) bool {
+	fi.trackPhis()
+	switch x := cond.(type) {
+	case *ssa.UnOp:
+		if x.Op == token.NOT {
+			return fi.infeasible(x.X, !truth, m)
+		}
+	case *ssa.BinOp:
+		var o ssa.Value
+		if isNilConst(x.Y) {
+			o = x.X
+		} else if isNilConst(x.X) {
+			o = x.Y
+		} else {
+			return false
+		}
+		p, ok := o.(*ssa.Phi)
+		if !ok {
+			return false
+		}
+		idx, ok := fi.phiIdx[p]
+		if !ok {
+			return false
+		}
+		k := (m >> uint(32+2*idx)) & 3
+		isNil := (x.Op == token.EQL && truth) || (x.Op == token.NEQ && !truth)
+		if x.Op != token.EQL && x.Op != token.NEQ {
+			return false
+		}
+		if k == 1 && !isNil {
+			return true
+		}
+		if k == 2 && isNil {
+			return true
+		}
+	}
+	return false
+}
+
 // through computes the mask after the instructions of block b.
-func (fi *FnInfo) through(b *ssa.BasicBlock, m uint32) uint32 {
+func (fi *FnInfo) through(b *ssa.BasicBlock, m uint64) uint64 {
 	for _, in := range b.Instrs {
 		switch x := in.(type) {
 		case *ssa.Store:
@@ -438,8 +564,8 @@ func (fi *FnInfo) through(b *ssa.BasicBlock, m uint32) uint32 {
 }
 
 // clobber clears the bits of cells a call may overwrite.
-func (fi *FnInfo) clobber(c ssa.CallInstruction, m uint32) uint32 {
-	if m == 0 {
+func (fi *FnInfo) clobber(c ssa.CallInstruction, m uint64) uint64 {
+	if m&0xffffffff == 0 {
 		return m
 	}
 	g := staticCallee(c)
@@ -478,7 +604,7 @@ func (fi *FnInfo) clobber(c ssa.CallInstruction, m uint32) uint32 {
 }
 
 // refine sets bits implied by cond == truth.
-func (fi *FnInfo) refine(cond ssa.Value, truth bool, m *uint32) {
+func (fi *FnInfo) refine(cond ssa.Value, truth bool, m *uint64) {
 	switch x := cond.(type) {
 	case *ssa.UnOp:
 		if x.Op == token.NOT {
@@ -760,7 +886,7 @@ func (fi *FnInfo) reach(starts []state, cut map[edgeKey]bool) map[state]bool {
 		b := fi.Fn.Blocks[s.b]
 		outs := fi.transfer(b, s.m)
 		for j, t := range b.Succs {
-			if cut[edgeKey{s.b, j}] {
+			if cut[edgeKey{s.b, j}] || outs[j] == infeasibleMask {
 				continue
 			}
 			p := -1
@@ -891,9 +1017,7 @@ func substParams(label string, names, descs []string) string {
 		i = e
 	}
 	r := sb.String()
-	if len(r) > 1500 {
-		r = r[:1500] + "…"
-	}
+	r = trunc(r, 1500)
 	return r
 }
 
@@ -1101,7 +1225,7 @@ func (fi *FnInfo) reachHit(starts []state, cut map[edgeKey]bool, targets map[int
 		b := fi.Fn.Blocks[s.b]
 		outs := fi.transfer(b, s.m)
 		for j, t := range b.Succs {
-			if cut[edgeKey{s.b, j}] {
+			if cut[edgeKey{s.b, j}] || outs[j] == infeasibleMask {
 				continue
 			}
 			if targets[t.Index] {
@@ -1264,7 +1388,7 @@ func (fi *FnInfo) successWitness(mode Mode, starts []state, cut map[edgeKey]bool
 		}
 		outs := fi.transfer(b, s.m)
 		for j, t := range b.Succs {
-			if cut[edgeKey{s.b, j}] {
+			if cut[edgeKey{s.b, j}] || outs[j] == infeasibleMask {
 				continue
 			}
 			p := -1
